@@ -341,7 +341,7 @@ func (w *WAL) mutateStateLocked(tx stateTxn) error {
 	succ.acquire()
 	w.s.Store(succ)
 	verifPoint("mutateState.published")
-	s.finalizer.Store(func() {
+	s.retire(func() {
 		if fn != nil {
 			fn()
 		}
@@ -1096,7 +1096,7 @@ func (w *WAL) Close() error {
 	// existing finalizer since this was the active state read under a write
 	// lock and finalizers are only set on states that have been replaced under
 	// that same lock.
-	s.finalizer.Store(func() {
+	s.retire(func() {
 		w.closeSegments(toClose)
 		empty.release()
 	})
